@@ -219,7 +219,9 @@ func (r *srun) envAction(rnd *rand.Rand) bool {
 	r.mu.Lock()
 	nrun := len(r.running)
 	r.mu.Unlock()
-	if nrun > 0 {
+	// once Stop() was called or the context cancelled the user's work does not "happen to finish" any more: a Handle that is
+	// running then ends through its context or not at all (C16: no help from the environment)
+	if nrun > 0 && !(r.ver == 1 && (r.stopReq || r.cancelReq)) {
 		f := func() {
 			r.mu.Lock()
 			if len(r.running) > 0 {
